@@ -44,7 +44,7 @@ func newC09Env(opts ...jsonrpc.ServerOption) *c09Env {
 	return e
 }
 
-func (e *c09Env) Close() { e.srv.Close() }
+func (e *c09Env) Close() { closeTestServer(e.srv) }
 
 type c09Case struct {
 	Transport string   `json:"transport"` // "inproc", "http", "ws"
